@@ -63,6 +63,7 @@ def run(check, prog):
     set_ops(check, prog)
     indicators(check, prog)
     overlaps(check, prog)
+    own_member_list(check, prog)
     constructors(check, prog)
     csg_motion(check, prog)
     bounds_search(check, prog)
@@ -410,6 +411,71 @@ def pair_loop(prog, q, it):
     """(outer iter, inner iter) of the i<j pair enumeration in method q"""
     lps = [l for l in it.loops.values() if l['func'] == q and l['iter'] is not None]
     return lps
+
+
+def own_member_list(check, prog):
+    """K9: a collection keeps a list of its own.  The constructor receives any
+    iterable (ensure_listlike hands an iterable back unchanged): kept as it is, a
+    generator has been exhausted by the type check before it is stored (the
+    collection is silently empty: no overlaps, no warning), a tuple breaks add(),
+    and a list stays shared with the caller and with every other collection built
+    from it (add() on one changes the other).  Rule: what every constructor of the
+    Scatterers family stores as `scatterers` is a freshly built list, and the
+    sequence that is type-checked is the same object that is stored."""
+    base = SC + 'composite.Scatterers'
+    fresh_ok = True
+    n = 0
+    for cq in sorted(set(prog.subclasses(base)) | {base}):
+        c = prog.classes.get(cq)
+        if c is None or '__init__' not in c.methods:
+            continue
+        fd = c.methods['__init__']
+        it = Interp(prog, max_depth=2, opaque=['holopy.core.utils.ensure_listlike'])
+        res = it.analyze(cq + '.__init__')
+        stores = [e for e in it.effects if e['kind'] == 'setattr' and
+                  e['attr'] == 'scatterers']
+        short = cq.rpartition('.')[2]
+        if not stores:
+            continue
+        n += 1
+        for e in stores:
+            v = e['value']
+            alts = []
+
+            def leaves(t):
+                if t[0] == 'ite':
+                    leaves(t[2])
+                    leaves(t[3])
+                else:
+                    alts.append(t)
+            leaves(v)
+            fresh = all(t[0] in ('list', 'comp') or (
+                t[0] == 'call' and t[1] in ('list', 'sorted')) for t in alts)
+            check.require(fresh, 'K9-own-member-list', short + '.__init__ stores',
+                          'self.scatterers is a freshly built list', prog.loc(
+                              cq + '.__init__', fd),
+                          fail_detail='%s.__init__ stores %s: the caller\'s own '
+                          'sequence -- a generator is empty by then (Spheres(Sphere(...) '
+                          'for c in centres) reports no overlaps and issues no warning), '
+                          'a list stays shared with the caller (add() on one cluster '
+                          'changes another built from the same list)' % (
+                              short, show(v)[:80]))
+            # the loop that checks the members walks the stored sequence
+            lps = [l for l in it.loops.values() if l['iter'] is not None and
+                   l['func'] == cq + '.__init__']
+            for l in lps:
+                itr = l['iter']
+                # (walking a list that has been built from the argument consumes
+                # nothing)
+                same = any(itr == t for t in alts) or itr[0] in ('list', 'comp') or (
+                    itr[0] == 'call' and itr[1] in ('list', 'sorted', 'tuple'))
+                check.require(same, 'K9-own-member-list', short + '.__init__ check',
+                              'the members that are checked are the members that are '
+                              'stored', prog.loc(cq + '.__init__', fd),
+                              fail_detail='the type check iterates over %s while %s is '
+                              'stored: a one-shot iterable is consumed by the check' % (
+                                  show(itr)[:60], show(v)[:60]))
+    check.floor('constructors of the Scatterers family that store members', n, 1)
 
 
 def overlaps(check, prog):
